@@ -940,6 +940,9 @@ class Connection(ExportImport):
     def readCurrent(self, ob):
         assert ob._p_jar is self
         assert ob._p_oid is not None and ob._p_serial is not None
+        if ob._p_changed is None:
+            # A ghost that was never loaded here has no serial yet.
+            ob._p_activate()
         if ob._p_serial != z64:
             self._readCurrent[ob._p_oid] = ob._p_serial
 
